@@ -429,8 +429,10 @@ func c03Impl(c *Ctx, im setImpl) {
 						enum++
 						onPath++
 						// the closure must return true on every path and do its work unconditionally
+						foundClosure := false
 						for j := range p.Events {
 							if p.Events[j].Kind == "mkclosure" && p.Events[j].Val.Key() == e.Args[1].Key() {
+								foundClosure = true
 								cp := c.An.ClosurePaths(&p.Events[j])
 								for _, q := range cp.Paths {
 									if len(q.Rets) != 1 || !q.Rets[0].IsConst("true") {
@@ -519,6 +521,10 @@ func c03Impl(c *Ctx, im setImpl) {
 									}
 								}
 							}
+						}
+						if !foundClosure && len(e.Args) >= 2 {
+							// a callback that captures nothing of this call counts, collects or writes nothing for it
+							ok, why = false, "the callback handed to Range captures nothing of this call: the enumeration cannot contribute to what "+name+" returns"
 						}
 					case strings.HasPrefix(e.Name, "sync2.(*Map)."):
 						ok, why = false, name+" reads the map through "+e.Name+" instead of enumerating with Range: deleted or not-yet-promoted entries are counted/missed"
